@@ -5,6 +5,8 @@ import os
 
 VERIF = os.path.dirname(os.path.dirname(os.path.abspath(__file__)))
 
+SOCK_SRC = (" SocketWrapper._recv and read are translated too and proved equal to the socket model for every sequence of recv() "
+            "results (C10_recv_from_source, C10_sock_read_from_source); readline is translated, not yet proved.")
 READER_SRC = (" Translation tie (C06_*_from_source, props/C06_src.v): UBXReader's stream-reading methods (_read_bytes, _read_line, "
               "_parse_ubx, _parse_nmea, _parse_rtcm3, _do_error, read) are translated from /repo on every run (harness/py2coq_io.py, "
               "a state-and-exception monad in coq/model/PyMini.v: trusted) and proved equal to this model - read() as a whole "
@@ -110,7 +112,7 @@ CHECKS = {
              "results (hence every bufsize) followed by any closes/timeouts/OSErrors, every reader configuration and "
              "parser behaviour, the reader over the socket wrapper delivers the same items as over a file. Partial for "
              "the runtime: kernel TCP delivery and the sender thread are exercised (socketpair), not modelled.",
-        note=READER_NOTE + " The scripted socket subclasses socket.socket; recv(n) delivers at most n bytes." + READER_SRC,
+        note=READER_NOTE + " The scripted socket subclasses socket.socket; recv(n) delivers at most n bytes." + READER_SRC + SOCK_SRC,
         ref="DESIGN.md §6 C10"),
     "C11": dict(
         technique="Coq proof (list induction over the framing trace: interp under mask F = filter of interp under mask 7) + correspondence over all 8 masks",
